@@ -1,5 +1,6 @@
 import Dtr.Proofs.RowInv
 import Dtr.Model.AfterError
+import Dtr.Proofs.AfterErrorBasic
 /-!
 # The run invariant holds behind every item  (continuing after error items)
 
@@ -104,27 +105,6 @@ theorem rngAfter_of_ok (get : String → Option OutVal) : ∀ (e : Expr) (g g' :
               | panic m => simp [h1] at h
             · cases h
           · cases h
-
-theorem afterEval_fields (c : Ctx) (e : Expr) :
-    (c.afterEval e).vars = c.vars ∧ (c.afterEval e).alt = c.alt ∧ (c.afterEval e).outs = c.outs := ⟨rfl, rfl, rfl⟩
-
-theorem entryAfter_fields (d : DataEntry) (c : Ctx) :
-    (entryAfter d c).vars = c.vars ∧ (entryAfter d c).alt = c.alt ∧ (entryAfter d c).outs = c.outs := by
-  cases d <;> exact ⟨rfl, rfl, rfl⟩
-
-theorem rowAfter_fields : ∀ (ds : List DataEntry) (c : Ctx),
-    (rowAfter ds c).vars = c.vars ∧ (rowAfter ds c).alt = c.alt ∧ (rowAfter ds c).outs = c.outs
-  | [], c => ⟨rfl, rfl, rfl⟩
-  | d :: ds, c => by
-    simp only [rowAfter]
-    cases h : evalEntry d c with
-    | ok p =>
-      obtain ⟨es, c1⟩ := p
-      have a := evalEntry_vars h
-      have b := rowAfter_fields ds c1
-      exact ⟨b.1.trans a.1, b.2.1.trans a.2.1, b.2.2.trans a.2.2⟩
-    | err e => exact entryAfter_fields d c
-    | panic m => exact entryAfter_fields d c
 
 /-- a failing turn: the statement iterator stays well-formed, keeps its depth and its loop
 counters' scopes, and the variables are untouched -/
